@@ -455,10 +455,16 @@ func (x *Decimal) Float(z *big.Float) *big.Float {
 	z.SetPrec(p + 1)
 
 	// big.Float has no SetBits. Need to use a temp Int.
+	// (without the zero words a mantissa may carry below the value: they must
+	// not make a difference to the result of this naive conversion)
+	mant := x.mant
+	for len(mant) > 1 && mant[0] == 0 {
+		mant = mant[1:]
+	}
 	var i big.Int
-	i.SetBits(decToNat(nil, x.mant))
+	i.SetBits(decToNat(nil, mant))
 
-	m := len(x.mant) * _DW
+	m := len(mant) * _DW
 	exp := int64(x.exp) - int64(m)
 	z = z.SetInt(&i)
 	if x.neg {
